@@ -88,6 +88,9 @@ func coins(n int64) sdk.Coins { return sdk.NewCoins(sdk.NewCoin(baseDen, sdkmath
 // ---------------------------------------------------------------- reset
 
 func (r *R) ResetLine(g *hx.Rng) string {
+	// hx seeds history i with NewRng(seed*1000003+i); splitmix streams of adjacent seeds are the same
+	// sequence shifted by one draw, so re-seed from a mixed value to decorrelate histories
+	*g = *hx.NewRng(g.U64())
 	// creators' funds decide when a feed's consumer runs out of service fees
 	var b []string
 	for i := 0; i < nAcc; i++ {
